@@ -471,6 +471,7 @@ func nsTask(w *world, id int, netID lorawan.NetID, n int, sub uint64) {
 		if simrt.Dead() {
 			return
 		}
+		simrt.Progress()
 		live := k == n // last request: faults have stopped (J6)
 		rq := &request{netID: netID}
 		txID++
